@@ -127,20 +127,38 @@ Definition it_next (m : mem) (it0 : iter) : nres * iter :=
       end
   end.
 
-(* list(it): status 1 = exhausted, 2 = raised, 0 = out of fuel (does not happen) *)
-Fixpoint it_drain (fuel : nat) (m : mem) (it : iter) (acc : list triple) : list triple * N * iter :=
-  match fuel with
-  | O => (acc, 0%N, it)
-  | S f =>
-      match it_next m it with
-      | (NYield t, it') => it_drain f m it' (acc ++ [t])
-      | (NDone, it') => (acc, 1%N, it')
-      | (NRaise, it') => (acc, 2%N, it')
-      end
+(* list(it): the generator body run to its end, no mutation in between.
+   The rest of a loop over candidates: what it yields, and whether it raised. *)
+Fixpoint scan_all (m : mem) (c : cid) (chk : bool) (l : list triple) : list triple * bool :=
+  match l with
+  | [] => ([], false)
+  | t :: r =>
+      if chk then
+        match has_ctx_live m t c with
+        | None => ([], true)
+        | Some true => let '(ys, e) := scan_all m c chk r in (t :: ys, e)
+        | Some false => scan_all m c chk r
+        end
+      else let '(ys, e) := scan_all m c chk r in (t :: ys, e)
   end.
 
-Definition drain_fuel (m : mem) (it : iter) : nat :=
-  3 + length (it_inner it) + length (idx_l1 (m_spo m)) + length (pd_getd ckey_eqb (Some (it_cid it)) (m_ct m)).
+Fixpoint walk_all (m : mem) (c : cid) (k : ikind) (chk : bool) (outer : list N) : list triple * bool :=
+  match outer with
+  | [] => ([], false)
+  | x :: r =>
+      let '(ys, e) := scan_all m c chk (it_expand m k x) in
+      if e then (ys, true) else let '(zs, e') := walk_all m c k chk r in (ys ++ zs, e')
+  end.
+
+(* status 1 = exhausted (StopIteration), 2 = raised; defined by structural recursion
+   over the snapshots, so there is no fuel and no third outcome *)
+Definition it_drain (m : mem) (it0 : iter) : list triple * N * iter :=
+  if it_done it0 then ([], 1%N, it0) else
+  let it := if it_started it0 then it0 else it_start m it0 in
+  let '(ys, e) := scan_all m (it_cid it) (it_check it) (it_inner it) in
+  if e then (ys, 2%N, it_set it true [] []) else
+  let '(zs, e') := walk_all m (it_cid it) (it_kind it) (it_check it) (it_outer it) in
+  (ys ++ zs, if e' then 2%N else 1%N, it_set it true [] []).
 
 (* ---------- schedules *)
 Inductive sop :=
@@ -190,7 +208,7 @@ Definition i_step (m : mem) (its : list iter) (o : sop) : mem * list iter * iobs
       match nth_error its i with
       | None => (m, its, no_obs)
       | Some it =>
-          let '(ys, st, it') := it_drain (drain_fuel m (if it_started it then it else it_start m it)) m it [] in
+          let '(ys, st, it') := it_drain m it in
           (m, set_nth i it' its, (N.of_nat i, is_wild (it_pat it), ys, st))
       end
   end.
